@@ -247,7 +247,17 @@ func c16Case(cs *Case, auto bool) {
 	}
 	os.RemoveAll(refDir)
 	// sometimes the target exists already (replace)
-	if chance(r, 30) && !strings.HasPrefix(lastShape, "missing") {
+	dirInTheWay := false
+	if chance(r, 8) && !strings.HasPrefix(lastShape, "missing") {
+		// a directory sits under the very name (empty, or with something in it): the write
+		// cannot succeed, and a write that fails leaves nothing behind either
+		must(os.Mkdir(expected, 0o755))
+		if chance(r, 50) {
+			must(os.WriteFile(filepath.Join(expected, "inside.txt"), []byte("x"), 0o644))
+		}
+		dirInTheWay = true
+		c.Count("writes_with_a_directory_under_the_name", 1)
+	} else if chance(r, 30) && !strings.HasPrefix(lastShape, "missing") {
 		switch r.Intn(4) {
 		case 3: // a symbolic link under that very name, to a file elsewhere: the link is replaced, its target is not written through
 			must(os.WriteFile(filepath.Join(sandbox, "linked-elsewhere.yaml"), []byte("precious: content\n"), 0o644))
@@ -336,6 +346,18 @@ func c16Case(cs *Case, auto bool) {
 	var werr error
 	if pv, st := guard(func() { werr = cache.WriteSpec(cloneSpec(spec), wname) }); pv != nil {
 		cs.Violation("panic", nil, fmt.Sprintf("WriteSpec panics: %v", pv), map[string]any{"w": wit, "stack": st})
+		return
+	}
+	if werr != nil && dirInTheWay {
+		c.Count("failed_writes_checked_for_leftovers", 1)
+		if a, rm, ch := snapDiff(before, treeSnapshot(root)); len(a)+len(rm)+len(ch) > 0 {
+			cs.Violation("write-touches-other", map[string]string{"failed_write": "true"}, fmt.Sprintf("WriteSpec(%q) failed (%v: a directory has that name) and still changed the tree: added %v removed %v changed %v", wname, werr, a, rm, ch), wit)
+		}
+		// and once more: failures do not add up
+		werr2 := cache.WriteSpec(cloneSpec(spec), wname)
+		if a, rm, ch := snapDiff(before, treeSnapshot(root)); werr2 != nil && len(a)+len(rm)+len(ch) > 0 {
+			cs.Violation("write-touches-other", map[string]string{"failed_write": "true"}, fmt.Sprintf("a second failing WriteSpec(%q) changed the tree: added %v removed %v changed %v", wname, a, rm, ch), wit)
+		}
 		return
 	}
 	if werr != nil {
